@@ -30,12 +30,7 @@ def chOfChar (c : Char) : Option Ch :=
 open Casing in
 def identOfString (s : String) : Option (List Ch) := s.toList.mapM chOfChar
 
-open Casing Ch in
-def charOfCh : Ch → Char
-  | lower n => Char.ofNat (97 + n) | upper n => Char.ofNat (65 + n)
-  | digit n => Char.ofNat (48 + n) | us => '_'
-
 open Casing in
-def identToString (s : List Ch) : String := String.ofList (s.map charOfCh)
+def identToString (s : List Ch) : String := Casing.toString s
 
 end Driver
